@@ -2,8 +2,8 @@
    Statements only (proofs: Proofs/Layout.v, axiom-free).  A composition is a list of sub-model descriptors
    (kind, dimensionality, optional covariate wrapper with its normalised selection); names are built from an
    abstract naming scheme. *)
-From Coq Require Import List Arith Bool.
-From Chi Require Import Model.Layout Proofs.Layout.
+From Coq Require Import List Arith Bool Lia.
+From Chi Require Import Model.Layout Proofs.Layout Model.Nested Proofs.Nested.
 Import ListNotations.
 
 (* for EVERY composition and number of individuals: number of names = number of IDs = n_parameters *)
@@ -40,3 +40,57 @@ Example C17_nonvacuous :
              {| sk := KHetero; sdim := 1; scov := None |} ] in
   N_parameters 3 c = 12 /\ N_bottom 3 c = 3 /\ special_ranges 0 c = [(0, 2); (3, 4)].
 Proof. repeat split. Qed.
+
+(* ---- compositions of compositions (Model/Nested.v) ---- *)
+(* what a nested composition reports (computed from its direct sub-models' reports only) is what the flat
+   composition of its leaves reports: dimensions, population parameters, bottom-level dimensions, special ranges *)
+Theorem C17_nested_reports : forall n_ids t,
+  t_dim t = N_dim (flat t) /\ t_par n_ids t = N_top n_ids (flat t) /\ t_hdim t = N_hdim (flat t) /\
+  t_special t = special_ranges 0 (flat t).
+Proof. exact nested_reports. Qed.
+
+(* the hierarchical sensitivities of EVERY nesting: bottom-level rows of the sub-models side by side, row by row,
+   then the population-level entries in order; never an error *)
+Theorem C17_nested_gradient : forall (V : Type) n (t : dtree V), 0 < n -> dwf V n t ->
+  red V (width_fixed V) n t = Some (concat (rows_spec V n t) ++ top_spec V t).
+Proof. exact red_fixed. Qed.
+
+(* ... of the length the object reports: n_ids * bottom-level dimensions + population-level parameters *)
+Theorem C17_nested_gradient_length : forall (V : Type) n (t : dtree V) ds, 0 < n -> dwf V n t ->
+  red V (width_fixed V) n t = Some ds -> length ds = n * d_hdim V t + length (top_spec V t).
+Proof. exact red_fixed_length. Qed.
+
+(* ... and nesting does not matter: the rows and the population-level entries are those of the flat composition *)
+Theorem C17_nesting_is_flat : forall (V : Type) n (t : dtree V), dwf V n t ->
+  rows_spec V n t = hcat V n (map (rows_spec V n) (dflat V t)) /\
+  top_spec V t = flat_map (top_spec V) (dflat V t).
+Proof. exact nesting_is_flat. Qed.
+
+(* the code before f4dfd54 reserved n_dim columns per sub-model: wrong exactly for nested compositions *)
+Theorem C17_nested_old_code_refuted : exists n (t : dtree nat),
+  0 < n /\ dwf nat n t /\ red nat (width_old nat) n t = None /\ red nat (width_fixed nat) n t <> None.
+Proof. exact red_old_refuted. Qed.
+Theorem C17_flat_old_code_agrees : forall (V : Type) n ts, 0 < n ->
+  Forall (fun c => match c with
+                   | DLeaf _ w rows _ => length (hd [] rows) = w \/ length (hd [] rows) = 0
+                   | DNode _ _ => False
+                   end) ts ->
+  red V (width_old V) n (DNode V ts) = red V (width_fixed V) n (DNode V ts).
+Proof. exact red_old_flat_ok. Qed.
+
+(* number of individuals: however compositions are built from leaves and other compositions, every object below a
+   composition works with the number of individuals the composition reports, also after set_n_ids *)
+Theorem C17_n_ids_uniform : forall r, rwf r -> uniform (o_n (make build r)) (make build r).
+Proof. exact built_uniform. Qed.
+Theorem C17_n_ids_uniform_after_set : forall r k, rwf r -> uniform k (set_n k (make build r)).
+Proof. exact built_set_n_uniform. Qed.
+(* the constructor before b4ba354 *)
+Theorem C17_old_constructor_refuted : exists r k,
+  rwf r /\ o_n (make build_old r) = k /\ set_n k (make build_old r) = make build_old r /\
+  ~ uniform k (make build_old r).
+Proof. exact build_old_refuted. Qed.
+
+Example C17_nested_nonvacuous :
+  let t := DNode nat [DLeaf nat 2 [[]; []] [5; 6]; DNode nat [DLeaf nat 1 [[1]; [2]] [7; 8]; DLeaf nat 1 [[3]; [4]] [9]]] in
+  dwf nat 2 t /\ red nat (width_fixed nat) 2 t = Some [1; 3; 2; 4; 5; 6; 7; 8; 9].
+Proof. split; [cbn; repeat split; try lia; intros r [<-|[<-|[]]]; reflexivity | reflexivity]. Qed.
